@@ -1085,6 +1085,9 @@ func (in *Interp) builtin(b *ssa.Builtin, args []Val, site ssa.CallInstruction) 
 			}
 			return SymInt{"len(" + x.Key + ")"}
 		case Opaque:
+			if in.sym.OpaqueLen {
+				return Opaque{"len(" + x.Key + ")", types.Typ[types.Int]}
+			}
 			return SymInt{"len(" + x.Key + ")"}
 		}
 		in.undecided("len of %T at %s", args[0], in.c.P.instrPos(site))
